@@ -56,7 +56,6 @@ func Ratio(total, part math.Int) math.Int {
 // TallyVote determines whether the dispute vote has either reached quorum or the vote period has ended.
 // If so, it calculates the given dispute round's outcome.
 func (k Keeper) TallyVote(ctx context.Context, id uint64) error {
-	numGroups := math.NewIntFromUint64(4)
 	scaledSupport := math.ZeroInt()
 	scaledAgainst := math.ZeroInt()
 	scaledInvalid := math.ZeroInt()
@@ -166,21 +165,6 @@ func (k Keeper) TallyVote(ctx context.Context, id uint64) error {
 		scaledSupportDec = scaledSupportDec.Add(forReportersDec)
 		scaledAgainstDec = scaledAgainstDec.Add(againstReportersDec)
 		scaledInvalidDec = scaledInvalidDec.Add(invalidReportersDec)
-	}
-
-	if totalRatio.GTE(math.NewInt(51).Mul(layertypes.PowerReduction)) {
-		numGroupsDec := math.LegacyNewDecFromInt(numGroups)
-		scaledSupportDec = scaledSupportDec.Quo(numGroupsDec)
-		scaledAgainstDec = scaledAgainstDec.Quo(numGroupsDec)
-		scaledInvalidDec = scaledInvalidDec.Quo(numGroupsDec)
-
-		scaledSupport = scaledSupportDec.TruncateInt()
-		scaledAgainst = scaledAgainstDec.TruncateInt()
-		scaledInvalid = scaledInvalidDec.TruncateInt()
-		dispute.DisputeStatus = types.Resolved
-		dispute.Open = false
-		dispute.PendingExecution = true
-		return k.UpdateDispute(ctx, id, dispute, vote, scaledSupport, scaledAgainst, scaledInvalid, true)
 	}
 
 	tokenSupply := k.GetTotalSupply(ctx)
